@@ -19,6 +19,7 @@ type evalCtx struct {
 	cur, old *state
 	bind     map[string]Val
 	callee   bool // contract of a callee evaluated at a call site: caller locals are not visible
+	preferBind bool // names in bind win over locals of the same name (closure contracts instantiated at sort.Slice)
 	visited  string
 }
 
@@ -109,6 +110,23 @@ func (fc *fnCtx) evalHole(text string, ev *evalCtx) Val {
 	return fc.evalExpr(e, ev, text)
 }
 
+// hasLocalNamed: the function under contract has a local variable or captured variable of this name.
+func (fc *fnCtx) hasLocalNamed(name string) bool {
+	for _, b := range fc.fn.Blocks {
+		for _, ins := range b.Instrs {
+			if a, ok := ins.(*ssa.Alloc); ok && a.Comment == name {
+				return true
+			}
+		}
+	}
+	for _, fv := range fc.fn.FreeVars {
+		if fv.Name() == name {
+			return true
+		}
+	}
+	return false
+}
+
 func (fc *fnCtx) localAlloc(name string) *ssa.Alloc {
 	want := 0
 	if i := strings.Index(name, "__AT__"); i >= 0 {
@@ -165,6 +183,14 @@ func (fc *fnCtx) evalExpr(e ast.Expr, ev *evalCtx, text string) Val {
 	case *ast.Ident:
 		name := strings.ReplaceAll(x.Name, "DOLLAR__", "$")
 		if v, ok := ev.bind[name]; ok {
+			// a name bound by an anchor (a parameter name of the CALLEE) must not shadow a variable of the
+			// function under contract: the contract is written from that function's point of view, the
+			// callee's arguments are $0, $1, ...
+			if !ev.callee && !ev.preferBind && fc.fn != nil && !strings.HasPrefix(name, "$") && !strings.HasPrefix(name, "result") {
+				if _, isParam := fc.params[name]; !isParam && fc.hasLocalNamed(name) {
+					goto local
+				}
+			}
 			return v
 		}
 		if name == "$visited" {
@@ -182,6 +208,7 @@ func (fc *fnCtx) evalExpr(e ast.Expr, ev *evalCtx, text string) Val {
 		if ev.callee {
 			return bad("%s is not a parameter of the callee", name)
 		}
+	local:
 		a := fc.localAlloc(name)
 		if a == nil {
 			// free variable of a closure
